@@ -10,16 +10,16 @@ import (
 
 // SpecEnv evaluates spec expressions against a symbolic state.
 type SpecEnv struct {
-	x      *Exec
-	st     *State            // current state
-	old    *State            // entry state (for old(...)); nil => st
-	names  map[string]Val    // explicit bindings (params at call sites, bound variables, result)
-	oldNames map[string]Val  // bindings visible inside old(...)
-	res    Val               // result value (Tup) when evaluating ensures
-	pos    token.Pos         // scope position for resolving locals
-	lets   map[string]SExpr
-	inOld  bool
-	bound  map[string]Sc
+	x        *Exec
+	st       *State         // current state
+	old      *State         // entry state (for old(...)); nil => st
+	names    map[string]Val // explicit bindings (params at call sites, bound variables, result)
+	oldNames map[string]Val // bindings visible inside old(...)
+	res      Val            // result value (Tup) when evaluating ensures
+	pos      token.Pos      // scope position for resolving locals
+	lets     map[string]SExpr
+	inOld    bool
+	bound    map[string]Sc
 }
 
 func (x *Exec) specEnv(st *State, pos token.Pos) *SpecEnv {
